@@ -315,7 +315,7 @@ func c04EvalPass(c *Ctx, cs c04Case) (ds []c04D, nontrivial bool) {
 			order[i], order[j] = order[j], order[i]
 		}
 	}
-	mv := c.Model.Call(405, L(L(chunks...), B(cs.Tac), I(fzf.VerifChunkSize), Ints(cs.Probes)))
+	mv := c.Model.Call(405, L(L(chunks...), B(cs.Tac), I(fzf.VerifRankChunkSize), Ints(cs.Probes)))
 	inRange := true
 	for _, p := range cs.Probes {
 		if p < 0 || p >= len(order) {
@@ -401,13 +401,13 @@ type c04Info struct {
 var c04Slab *util.Slab
 
 // c04Match sets scheme + criteria and matches every line. Caller holds c04Mu.
-func c04Match(cs c04Case) (pat *fzf.VerifPattern, crits []int, infos []c04Info) {
+func c04Match(cs c04Case) (pat *fzf.VerifRankPattern, crits []int, infos []c04Info) {
 	algoMu.Lock()
 	setScheme(cs.Scheme)
 	algoMu.Unlock()
 	crits = c04Crits(cs)
 	fzf.VerifSetCriteria(crits)
-	pat = fzf.VerifBuildPattern(cs.Query, crits, true, false, 0, true)
+	pat = fzf.VerifRankBuildPattern(cs.Query, crits, true, false, 0, true)
 	if c04Slab == nil {
 		c04Slab = util.MakeSlab(100*1024, 2048)
 	}
@@ -489,7 +489,7 @@ func c04EvalScan(c *Ctx, cs c04Case) (ds []c04D, nontrivial bool) {
 	}
 	var mv Val
 	if len(cs.Lines) <= 4000 {
-		mv = c.Model.Call(410, L(I(cs.Partitions), B(cs.SortOn), B(cs.Tac), B(pat.IsEmpty()), B(pat.Sortable()), I(fzf.VerifChunkSize), L(chunks...), Ints(probes)))
+		mv = c.Model.Call(410, L(I(cs.Partitions), B(cs.SortOn), B(cs.Tac), B(pat.IsEmpty()), B(pat.Sortable()), I(fzf.VerifRankChunkSize), L(chunks...), Ints(probes)))
 	} else {
 		mv = L(I(n), Ints(got)) // too large for the quadratic model: spec only
 		if pan {
@@ -883,7 +883,7 @@ func c04GenCounts(r *RNG) []int {
 	}
 	counts := make([]int, n)
 	for i := range counts {
-		counts[i] = fzf.VerifChunkSize
+		counts[i] = fzf.VerifRankChunkSize
 	}
 	counts[0] = Pick(r, []int{1, 2, 50, 99, 100, 100})
 	if n > 1 {
